@@ -43,7 +43,7 @@ def classes_of(lines):
     return sorted(cl)
 
 
-VALUED_SPELLINGS = ("-o", "--out", "--level", "-s", "--speed", "-m", "--mode", "--depth", "--allow", "-d", "--out-dir")
+VALUED_SPELLINGS = ("-o", "--out", "--level", "-s", "--speed", "-m", "--mode", "--depth", "--allow", "-d", "--out-dir", "--ip")
 
 
 def k12_dangling_value(argv):
